@@ -37,6 +37,28 @@ OTHER = ['integ:1062', 'prog:1064', 'op:1644', 'op:1054', 'op:1317', 'op:1206', 
          'int:1213', 'int:1040', 'integ:1205', 'prog:1213', 'iface:0', 'other:0'] + BASE
 
 
+# what a @transaction body does with a pymysql error of one of its statements: 'from' = `except MySQLError as e: raise AppError() from e`,
+# 'raise' = `except MySQLError: raise AppError()` (implicit __context__ only), 'reraise' = `except MySQLError: raise`; the marker is the
+# LAST element of a body statement, e.g. ['w', 1, 10, 0, 'from'] or ['m', 1, 2, 1, 1001, 'raise']
+WRAPS = ('from', 'raise', 'reraise')
+
+
+def wrap_of(st):
+    return st[-1] if isinstance(st[-1], str) and st[-1] in WRAPS else None
+
+
+def escaping(err, st):
+    """the exception that leaves the body when statement `st` raises `err`: the application error (an Exception that is not a pymysql
+    error: 'other:0') if the body catches MySQL errors of that statement and raises its own"""
+    if st is not None and wrap_of(st) in ('from', 'raise') and err.split(':')[0] not in ('other', 'base'):
+        return 'other:0'
+    return err
+
+
+class AppError(Exception):
+    """the application's own error"""
+
+
 class Abort(BaseException):
     """a BaseException outside the Exception hierarchy that asyncio treats like any other (unlike KeyboardInterrupt / SystemExit, which
     Task.__step re-raises into the event loop)"""
@@ -76,14 +98,15 @@ class C27(Prop):
     level_note = ('Partial: the server side is the fake pool + minisql (rollback/commit semantics and what the server does on deadlock, lock wait '
                   'timeout and connection loss are assumptions listed below); PyMySQL error classes come from a shim reproducing 1.1.2 error_map; '
                   'interleaving of concurrent transactions and the behaviour of real aiomysql/MySQL beyond the listed assumptions are outside the claim.')
-    budget = {'quick': 4400, 'thorough': 40000}
+    budget = {'quick': 4800, 'thorough': 40000}
     search_budget = {'quick': 3000, 'thorough': 60000}
     rule = ('case = (initial rows, body of upsert/insert/update/select statements over two tables each issued through its Transaction.execute_* '
             'method with or without a query_name, run inside one @transaction function or as a single Database.execute_* call, fault script per '
             'attempt = statement index x error); every run contains the exhaustive layer {12 fixed bodies: plain, all-instrumented, mixed with reads, '
             'single-statement Database calls} x {every statement index incl. acquire, START TRANSACTION, COMMIT and one past} x {every (class, code) of '
             'the error list} plus execute_many batches of {1, 2, 999, 1000, 1001, 2500} argument rows (single Database.execute_many calls with a fault at every statement of the 1st, 2nd and 3rd '
-            'transaction the call might open, and inside @transaction bodies) plus the other ways an attempt fails: the task running the operation cancelled while statement i is in flight (base:0) and a BaseException '
+            'transaction the call might open, and inside @transaction bodies) plus bodies whose statements are guarded (`except MySQLError as e: raise AppError() from e`, plain `raise AppError()`, re-raise: 2 fixed bodies in '
+            'the exhaustive layer, 20 % of the random statements); plus the other ways an attempt fails: the task running the operation cancelled while statement i is in flight (base:0) and a BaseException '
             'raised by statement i (base:1) are error codes of the same exhaustive layer; cancellation of the task at EVERY suspension the real run '
             'exhibits (statement round trips, shielded commit / rollback, back-off sleeps) for 6 bodies incl. ones with injected errors, and at a random '
             'suspension in 8 % of the random cases (oracle only, no model line); plus runs of L consecutive transient failures of one operation for L in {1..12, 20, 50} (thorough: also 100, 200): the same error at the same statement every time for '
@@ -228,6 +251,9 @@ end HailVerif.Generated.SqlTimer
         {'init': {'1': 5}, 'body': [['u', 1, 2, 1], ['u', 107, 1, 1], ['w', 1, 10, 1]]},
         {'init': {'1': 5, '100': 1}, 'body': [['i', 2, 7, 1], ['r', 2, 0, 1], ['w', 100, -3, 1], ['a', 100, 0, 1]]},
         {'init': {'1': 5}, 'body': [['w', 1, 3], ['r', 1, 0], ['u', 1, 4, 1], ['a', 1, 0]]},
+        # bodies that catch the MySQL error of a statement and raise their own error (from e / plain) or re-raise
+        {'init': {'1': 5}, 'body': [['w', 1, 1], ['u', 2, 3, 0, 'from'], ['w', 1, 10, 1, 'raise'], ['i', 7, 1, 0, 'reraise']]},
+        {'init': {'1': 5, '2': 0}, 'body': [['i', 2, 7, 1, 'from'], ['r', 1, 0, 0, 'from'], ['a', 1, 0, 1, 'raise'], ['m', 3, 1, 0, 3, 'from']]},
         # single-statement Database.execute_* calls
         {'init': {'1': 5}, 'body': [['w', 1, 10, 1]], 'mode': 'db'},
         {'init': {'1': 5}, 'body': [['w', 1, 10]], 'mode': 'db'},
@@ -307,11 +333,14 @@ end HailVerif.Generated.SqlTimer
         kind = rng.choice(['u', 'u', 'w', 'w', 'i', 'r', 'm', 'm'] if db_mode else ['u', 'u', 'w', 'w', 'i', 'r', 'a', 'm'])
         if kind == 'm':
             size = rng.choice(self.MANY_SIZES) if rng.random() < 0.12 else rng.randint(1, 6)
-            return ['m', rng.choice([1, 3, 100, 102]), rng.randint(-9, 9), int(rng.random() < 0.5), size]
+            return ['m', rng.choice([1, 3, 100, 102]), rng.randint(-9, 9), int(rng.random() < 0.5), size] + \
+                ([rng.choice(WRAPS)] if not db_mode and rng.random() < 0.2 else [])
         st = [kind, rng.choice([1, 2, 3, 4, 100, 101, 102, 103]), 0 if kind in 'ra' else rng.randint(-9, 9)]
         # Database.execute_insertone takes no query_name
         if rng.random() < 0.5 and not (db_mode and kind == 'i'):
             st.append(1)
+        if not db_mode and rng.random() < 0.2:
+            st = st + [0] * (4 - len(st)) + [rng.choice(WRAPS)]
         return st
 
     def random_case(self, rng):
@@ -355,8 +384,8 @@ end HailVerif.Generated.SqlTimer
     # -- model -------------------------------------------------------------------------------------
     def model_lines(self, c):
         init = ' '.join(f'{k}={v}' for k, v in sorted(c['init'].items(), key=lambda kv: int(kv[0])))
-        body = ' '.join(['n'] * N_PRE + [f'{st[0]}:{st[1]}:{st[2]}' + (f':{st[4]}' if st[0] == 'm' else '') + (':q' if len(st) > 3 and st[3] else '')
-                                         for st in c['body']])
+        body = ' '.join(['n'] * N_PRE + [f'{st[0]}:{st[1]}:{st[2]}' + (f':{st[4]}' if st[0] == 'm' else '') + (':q' if len(st) > 3 and st[3] else '') +
+                                         (':' + wrap_of(st) if wrap_of(st) else '') for st in c['body']])
         scripts = ' '.join('-' if s is None else f'{s[0]}:{s[1]}' for s in c['scripts'])
         if c.get('cancel_at'):
             return []
@@ -453,13 +482,21 @@ end HailVerif.Generated.SqlTimer
                 for st in c['body']:
                     meth, sql, args, qn = stmt(st)
                     kw = {} if qn is None else {'query_name': qn}
-                    if meth == 'execute_and_fetchall':
-                        mine.append([r['v'] async for r in tx.execute_and_fetchall(sql, args, **kw)])
-                    elif meth == 'execute_and_fetchone':
-                        r = await tx.execute_and_fetchone(sql, args, **kw)
-                        mine.append([] if r is None else [r['v']])
-                    else:
-                        await getattr(tx, meth)(sql, args, **kw)
+                    w = wrap_of(st)
+                    try:
+                        if meth == 'execute_and_fetchall':
+                            mine.append([r['v'] async for r in tx.execute_and_fetchall(sql, args, **kw)])
+                        elif meth == 'execute_and_fetchone':
+                            r = await tx.execute_and_fetchone(sql, args, **kw)
+                            mine.append([] if r is None else [r['v']])
+                        else:
+                            await getattr(tx, meth)(sql, args, **kw)
+                    except self.err.MySQLError as e:
+                        if w == 'from':
+                            raise AppError(f'statement {st[0]} failed') from e
+                        if w == 'raise':
+                            raise AppError(f'statement {st[0]} failed')
+                        raise
                 return 'done'
 
             async def single():
@@ -547,7 +584,7 @@ end HailVerif.Generated.SqlTimer
                     d[k + j % 2] = d.get(k + j % 2, 0) + x
             elif kind == 'i':
                 if k in d:
-                    return None, 'integ:1062'
+                    return None, escaping('integ:1062', st)
                 d[k] = x
             elif kind in 'ra':
                 if reads is not None:
@@ -561,7 +598,8 @@ end HailVerif.Generated.SqlTimer
             return out[0]
         o = self._run(c)
         init = {int(k): v for k, v in c['init'].items()}
-        fired = {a: (idx, err) for a, idx, err in o['fired']}
+        # what left the body: the injected error, or the application error the body raises in its place at a guarded statement
+        fired = {a: (idx, escaping(err, c['body'][idx - N_PRE] if N_PRE <= idx < N_PRE + len(c['body']) else None)) for a, idx, err in o['fired']}
         n = o['attempts']
         stepped = bool(c.get('cancel_at'))
         cancelled = o['result'] == 'err:base:0'
@@ -574,7 +612,7 @@ end HailVerif.Generated.SqlTimer
                     f'{o["db"] if len(o["db"]) < 8 else "..."}: neither the initial rows {init if len(init) < 8 else "..."} nor the whole body '
                     f'applied once {expect if expect is None or len(expect) < 8 else "..."} (attempts={n}, COMMITs sent={o["commits"]}, fired={o["fired"]}'
                     f'{", cancelled at suspension " + str(c["cancel_at"]) if stepped else ""})')
-        if stepped and o['result'] not in ['ok', 'err:base:0', 'err:' + str(own_err)] + ['err:' + f[2] for f in o['fired'] if f[2] not in TRANSIENT]:
+        if stepped and o['result'] not in ['ok', 'err:base:0', 'err:' + str(own_err)] + ['err:' + e for _, e in fired.values() if e not in TRANSIENT]:
             return f'cancelling the task at its suspension {c["cancel_at"]} made the caller see {o["result"]} (fired={o["fired"]})'
         # one logical operation = one transaction: whatever was retried, exactly one COMMIT reaches the server when the call returns and
         # none when it raises (a second committed transaction makes the writes of the first visible and durable on their own).  The one
@@ -595,7 +633,8 @@ end HailVerif.Generated.SqlTimer
             if a not in fired:
                 return f'attempt {a} of {n} was retried although no injected error fired in it'
             if fired[a][1] not in TRANSIENT:
-                return f'attempt {a} failed with {fired[a][1]} at statement {fired[a][0]}, which is not a transient error, and was retried'
+                return (f'attempt {a} failed with {fired[a][1]} at statement {fired[a][0]}, which is not a transient error, and was retried'
+                        f' (faults injected: {o["fired"]})')
         if n in fired and not (stepped and cancelled):
             idx, err = fired[n]
             if err in TRANSIENT:
@@ -656,6 +695,10 @@ end HailVerif.Generated.SqlTimer
                 tags.append('fault@body:' + ('query_name' if len(st) > 3 and st[3] else 'plain') + ':' + st[0])
         if any(len(st) > 3 and st[3] for st in c['body']):
             tags.append('has-query_name')
+        for sc in c['scripts']:
+            if sc is not None and N_PRE <= sc[0] < n + N_PRE and wrap_of(c['body'][sc[0] - N_PRE]):
+                tags.append(f'fault@guarded-stmt:{wrap_of(c["body"][sc[0] - N_PRE])}:' +
+                            ('transient' if sc[1] in TRANSIENT else 'base' if sc[1] in BASE else 'other'))
         for st in c['body']:
             if st[0] == 'm':
                 tags.append('execute_many rows=' + ('1' if st[4] == 1 else '2-6' if st[4] <= 6 else str(st[4])))
